@@ -274,20 +274,43 @@ def apis():
                                       progress_type="rec")
 
     def pttempo(fail_at):
-        oqupy.PtTempo(bath, 0.0, 0.3, par).compute(progress_type="rec")
+        # the user callable is the bath correlation function (integrated while the process tensor is being computed)
+        st, tick = counted(fail_at)
+
+        def cfun(t):
+            tick()
+            return 0.05 * np.exp(-t * t)
+        b2 = oqupy.Bath(0.5 * oqupy.operators.sigma("z"), oqupy.CustomCorrelations(cfun))
+        p = oqupy.PtTempo(b2, 0.0, 0.3, par)
+        st["armed"] = True
+        p.compute(progress_type="rec")
 
     def tebd(fail_at):
+        # the user-supplied object is a process tensor whose tensors fail at the fail_at-th request (e.g. a file-backed
+        # tensor that cannot be read, a process tensor shorter than the requested propagation)
+        st, tick = counted(fail_at)
+
+        class BoomPT(oqupy.process_tensor.SimpleProcessTensor):
+            def get_mpo_tensor(self, step, transformed=True):
+                tick()
+                return super().get_mpo_tensor(step, transformed)
+        bpt = BoomPT(2, dt=0.1)
+        for k in range(3):
+            bpt.set_mpo_tensor(k, np.ones((1, 1, 4), dtype=complex))
+        for k in range(4):
+            bpt.set_cap_tensor(k, np.ones(1, dtype=complex))
         chain = oqupy.SystemChain([2, 2])
         chain.add_site_hamiltonian(0, 0.5 * oqupy.operators.sigma("z"))
-        p = oqupy.PtTebd(oqupy.AugmentedMPS([rho, rho]), chain, [None, None], oqupy.PtTebdParameters(dt=0.1, order=1, epsrel=1e-6))
-        p.compute(2, progress_type="rec")
+        p = oqupy.PtTebd(oqupy.AugmentedMPS([rho, rho]), chain, [bpt, None], oqupy.PtTebdParameters(dt=0.1, order=1, epsrel=1e-6))
+        st["armed"] = True
+        p.compute(3, progress_type="rec")
 
     return [("Tempo.compute", True, tempo, True), ("MeanFieldTempo.compute", True, meanfield, True),
             ("compute_correlations_nt", True, corr_nt, True),
             ("compute_dynamics", False, dyn, True), ("compute_dynamics_with_field", False, dyn_field, True),
             ("compute_gradient_and_dynamics", False, grad, True),
             ("compute_gradient_and_dynamics(callable target)", False, grad_target, True),
-            ("PtTempo.compute", True, pttempo, False), ("PtTebd.compute", True, tebd, False)]
+            ("PtTempo.compute", True, pttempo, [1, 30, 200, 1000]), ("PtTebd.compute", True, tebd, True)]
 
 
 CHILD = r'''
@@ -454,7 +477,7 @@ def run(chk):
     outil.PROGRESS_DICT["rec"] = Recorder
     try:
         for name, guarded, fn, injectable in apis():
-            fails = [None] + (list(range(1, 5 if not thorough else 9)) if injectable else [])
+            fails = [None] + (injectable if isinstance(injectable, list) else list(range(1, 5 if not thorough else 9)) if injectable else [])
             for k in fails:
                 Recorder.log = []
                 raised = False
